@@ -31,8 +31,8 @@ pub fn child(args: &[String]) -> i32 {
     let n: u64 = args.get(0).and_then(|s| s.parse().ok()).unwrap_or(1000);
     let seed: u64 = args.get(1).and_then(|s| s.parse().ok()).unwrap_or(0);
     let files: Vec<Vec<u8>> = (0..8).map(|i| build(n, crate::engine::mix(seed, i), if i % 2 == 0 { 1 } else { 0 })).collect();
-    let path = format!("{}/work/c14-{}.fst", crate::engine::VERIF_DIR, std::process::id());
-    let _ = std::fs::create_dir_all(format!("{}/work", crate::engine::VERIF_DIR));
+    let path = format!("{}/work/c14-{}.fst", crate::engine::out_dir(), std::process::id());
+    let _ = std::fs::create_dir_all(format!("{}/work", crate::engine::out_dir()));
     std::fs::write(&path, &files[0]).unwrap();
     let fh = std::fs::File::open(&path).unwrap();
     let mm = unsafe { memmap2::Mmap::map(&fh) }.unwrap();
